@@ -160,6 +160,8 @@ def run_case(case):
         import warnings
         warnings.simplefilter("ignore")
         comm = MPI.COMM_WORLD
+        if case.get("seed", 0) % 3 == 1:
+            comm = comm.Split(0, -rank)          # the same processes numbered in the opposite order to the world communicator
         try:
             if cfg["mgr"] == "handler":
                 h = lay.getLayoutHandler(comm, dict(cfg["layouts"]), list(cfg["nprocs"]), eta)
